@@ -276,8 +276,8 @@ theorem bound_of_meets (have_ need : Spec) (hm : have_.meets need = true) (x y :
   cases have_ <;> cases need <;> simp only [Spec.meets, decide_eq_true_eq, Bool.false_eq_true] at hm <;> simp only [Bound] at hb ⊢
   · exact le_trans hb (fix_bound_mono hm)
   · exact le_trans hb (mul_le_mul_of_nonneg_right (sig_bound_mono hm) (abs_nonneg x))
-  · subst hb; simp; positivity
-  · subst hb; simp; positivity
+  · subst hb; simp <;> positivity
+  · subst hb; simp <;> positivity
   · exact hb
   · exact hb
   · exact hb
